@@ -256,7 +256,12 @@ func cli(c *run.Ctx, cs Case, w *pipe.Workload, truth []pipe.LineTruth) {
 		"worker.afterRecv=yield,batch.beforeSend=yield"}[r.Intn(4)]
 	cmd.Env = append(os.Environ(), "VERIF_POINTS="+points, "VERIF_SEED="+strconv.FormatUint(cs.Seed, 10),
 		"GOMAXPROCS="+strconv.Itoa(w.Cfg.GoMaxProcs))
-	var stdout, stderr bytes.Buffer
+	var stderr bytes.Buffer
+	mpl := 0
+	for _, p := range paths {
+		mpl = max(mpl, len(p))
+	}
+	stdout := pipe.CapWriter{Max: pipe.OutputBound(w, mpl), OnOverflow: func() { cmd.Process.Kill() }}
 	cmd.Stdout, cmd.Stderr = &stdout, &stderr
 	var feedErr error
 	if stdin {
@@ -309,12 +314,16 @@ func cli(c *run.Ctx, cs Case, w *pipe.Workload, truth []pipe.LineTruth) {
 	code := 0
 	if ee, ok := werr.(*exec.ExitError); ok {
 		code = ee.ExitCode()
-	} else if werr != nil {
+	} else if werr != nil && !stdout.Overflowed() {
 		c.Inconclusive("rare: " + werr.Error())
 		return
 	}
 	fp := func(class string) string { return "cli-" + class + ":" + w.Cfg.String() }
 	ctxs := fmt.Sprintf("[cli %s, %d inputs, config %s, points %q]", cs.Kind, len(w.Inputs), w.Cfg.String(), points)
+	if stdout.Overflowed() {
+		c.Violation(fp("runaway-output"), fmt.Sprintf("rare filter wrote more than %d bytes for inputs that cannot produce that much (lines are emitted without end); it was killed %s", stdout.Max, ctxs), cs)
+		return
+	}
 	if strings.Contains(stderr.String(), "panic:") || strings.Contains(stderr.String(), "fatal error:") {
 		c.Violation(fp("crash"), "rare crashed: "+tailStr(stderr.String(), 1500)+" "+ctxs, cs)
 		return
